@@ -350,6 +350,6 @@ func C14(r *core.Run) {
 	r.Cov["exhaustive"] = len(deaths) == 0
 	r.Cov["layout_runs"] = layRuns
 	r.Cov["bound"] = map[string]any{"layouts": len(c14Layouts), "versions": c14Versions, "rejected": c14Rejected, "years": c14Years, "history_length": depth, "files": 7, "decoys": 6}
-	r.Cov["rule"] = "explicit-state BFS over invocation histories with the real CLI: from the pristine tree every (version, year) step, from every distinct reached tree again every step, up to the history length; after every step all .conf/.example files must equal the template filled with that step's values (other text and decoy files byte-identical), repeating the step must change nothing; rejected versions exit non-zero and leave the tree; states = distinct trees expanded, transitions = CLI executions"
+	r.Cov["rule"] = "explicit-state BFS over invocation histories with the real CLI: from the pristine tree every (version, year) step, from every distinct reached tree again every step, up to the history length; after every step all .conf/.example files must equal the template filled with that step's values (other text and decoy files byte-identical), repeating the step must change nothing; rejected versions exit non-zero and leave the tree; states = distinct trees expanded, transitions = CLI executions; stage layout: seven directory layouts (symbolic links to files and directories, dangling links, hidden files and directories, deep, blank and non-ASCII names, target names in odd places) with one- and two-step histories"
 	r.Cov["samples"] = []any{[]string{"4.1.0-RC1/2025", "4.0.0/2031"}, []string{"v4.2.0/2031", "4.4/2025", "10.20.30-dev-1/2031"}}
 }
